@@ -18,7 +18,8 @@ From Moc Require CacheFacts.
 From Moc Require Import LinCheckProofs.
 From Moc.Check Require C15Check.
 From Coq Require Import Permutation.
-From Moc.Gen Require Import GenLocks.
+From Moc Require Import LockOrder LockOrderProofs.
+From Moc.Gen Require Import GenLocks GenLockOrder.
 Import ListNotations.
 Open Scope Z_scope.
 
@@ -83,6 +84,27 @@ Print Assumptions C15_lin_transfer.
 Theorem C15_cache_lock_discipline : lock_discipline_ok = true.
 Proof. exact cache_lock_discipline. Qed.
 Print Assumptions C15_cache_lock_discipline.
+
+(** EventCache.mu in the lock order of the package (LockOrder.v, Gen/GenLockOrder.v, regenerated on
+    every run): the lock is never held while another lock is taken and never taken while another
+    one is held - in particular a method that holds it does not take it again, which behind a
+    queued writer is a deadlock (C13_example_reentrant_read_lock) - and no blocking operation
+    happens with a lock held; hence in every reachable state of the lock model whoever holds
+    EventCache.mu waits for no lock and sits in no blocking operation: the critical sections of the
+    store, which Lin.v treats as running to their end, are never stuck on another lock *)
+Theorem C15_cache_lock_never_nested :
+  0 <= lo_cache_lock_level /\ lo_never_nested g_lock_nest lo_cache_lock_level = true /\
+  g_lock_blocking_under_lock = [].
+Proof. exact (conj (proj1 lock_classes_found) (conj lock_cache_never_nested lock_blocking_table_empty)). Qed.
+Print Assumptions C15_cache_lock_never_nested.
+
+Theorem C15_cache_lock_isolated : forall lv s,
+  lo_steps lv g_lock_nest g_lock_blocking_under_lock lo_init s ->
+  lo_leaf_level lv lo_cache_lock_level s /\ lo_no_block_under_lock s.
+Proof.
+  exact (fun lv s St => conj (lo_program_cache_lock_isolated lv s St) (proj2 (lo_program_invariant lv s St))).
+Qed.
+Print Assumptions C15_cache_lock_isolated.
 
 Theorem C15_cache_disciplined : disciplined cstate cop cres cache_sem cache_mode cache_wr.
 Proof. exact cache_disciplined. Qed.
